@@ -37,7 +37,7 @@ TRUSTED = [
     "in coq/model/{Scope,BangOps,Indexer}.v, tied to the code by the correspondence run of this check "
     "(goto_definition + references at every offset, diagnostics by (file, range, message class)) AND, for Core programs, by "
     "translation + proof: the indexer functions of IndexerSource, all bang operators, scope.rs, context.rs and the goto / references "
-    "handlers (entries below); symbol_map/typ.rs (coq/model/Typ.v) and the accessor table remain trusted tables",
+    "handlers, symbol_map/typ.rs (entries below); the accessor table remains a trusted table",
     "modelled contracts: id_arena (ids = allocation order), HashMap (finite map), indexmap::IndexMap (insertion "
     "order, re-insert keeps position), iset::IntervalMap (insert replaces on an equal interval, "
     "values_overlap in (start,end) order), rowan text ranges as produced by the real parser",
